@@ -542,6 +542,7 @@ func c16rRun(c *vr.Report, cs c16rCase) {
 	}
 	c.Eval()
 	var trace strings.Builder
+	var reported [2][c16rNRec]bool
 	everLoose := false
 	for step, e := range full {
 		cache, kind := e/c16rNEv, e%c16rNEv
@@ -579,8 +580,13 @@ func c16rRun(c *vr.Report, cs c16rCase) {
 				}
 				ok := n <= 1 && (n == 1 || !lo[ri]) && (n == 0 || hi[ri])
 				if ok {
+					reported[ci][ri] = false
 					continue
 				}
+				if reported[ci][ri] {
+					continue // the same discrepancy, still standing: one defect is reported once per sequence
+				}
+				reported[ci][ri] = true
 				key := c16rClassify(prev, &model[ci], ci == cache, kind, label, ri, n)
 				min := cs
 				if step >= pre {
@@ -589,8 +595,6 @@ func c16rRun(c *vr.Report, cs c16rCase) {
 				c.Violationf(key, min,
 					"start=%d sequence %s: after step %d (%s) the table holds %s; RFC 8210 model for cache %s record %s: must-be-present=%v may-be-present=%v, table has %d entries (model step: %s)",
 					cs.Start, c16rSeqString(cs.Seq), step-pre, c16rEvString(e), c16rTableString(cnt), []string{"A", "B"}[ci], []string{"a", "b", "c6"}[ri], lo[ri], hi[ri], n, label)
-				// resynchronise on this record so that one defect does not mask later ones in the same sequence
-				model[ci].fuzzy[ri] = true
 			}
 		}
 		if step >= pre {
@@ -610,7 +614,7 @@ func c16rRun(c *vr.Report, cs c16rCase) {
 	case finalStrict:
 		c.Outcome("sequence:final-table-fully-determined")
 	default:
-		c.Outcome("sequence:final-table-has-unspecified-records")
+		c.Outcome("sequence:ends-inside-a-response-or-with-unspecified-records")
 	}
 	t := trace.String()
 	if strings.Trim(t, "0|") != "" || cs.Start == 1 {
@@ -775,10 +779,7 @@ func TestVerif_C16_RTR(t *testing.T) {
 		return
 	}
 
-	depth := 5
-	if vr.Thorough() {
-		depth = 6
-	}
+	depth := 5 // full alphabet; thorough adds depth 6 over the trimmed alphabet and framed sequences up to 7
 	al := c16rAlphabet(false)
 	alTrim := c16rAlphabet(true)
 	wfDepth := depth + 1
